@@ -157,8 +157,14 @@ def run_case(case):
         # which worker gets which frame depends on timing, so a couple of frames may legitimately land on the slower worker in one run and not in
         # the other: that much difference is not a hold-up
         slack = SLACK_MS + 2 * max(max(w_) for w_ in case['sync_work'])
-        if ta > tb + slack:
-            return bad(f'balanced stream finished at {ta:.0f} ms with the ephemeral listeners present, {tb:.0f} ms without (slack {slack} ms)', 'sync-stream-delayed:balanced', classes)
+        # link delays above the request interval: the first consumer below a splitter never prefetches, so its pace is work + round trip unless a
+        # duplicated periodic request happens to be in flight; whether one is depends on which of two events of the same virtual instant (frame
+        # arrival, end of process()) is served first - observed 0.75x to 1.45x of the run without listeners, only where consumer and publisher
+        # work are exactly equal. As for the plain publisher below, only a gross hold-up is judged there
+        slow_net = case['net']['cls'] in ('over_poll', 'slow')
+        if ta > (2 * tb + 1000 if slow_net else tb + slack):
+            return bad(f'balanced stream finished at {ta:.0f} ms with the ephemeral listeners present, {tb:.0f} ms without (' +
+                       ('limit 2x + 1000 ms, delays above the request interval' if slow_net else f'slack {slack} ms') + ')', 'sync-stream-delayed:balanced', classes)
         a_calls, b_calls = {}, {}
     else:
         a_calls, b_calls = a['calls'], b['calls']
